@@ -118,6 +118,8 @@ def pval_of_py(x):
         return {'t': 'frac', 'v': _fs(x)}
     if isinstance(x, Decimal):
         return {'t': 'dec', 'v': str(x)}
+    if isinstance(x, type):
+        return {'t': 'opaque', 'tag': 'class:' + x.__name__}
     if hasattr(x, 'to_dict'):
         cls = type(x).__module__ + '.' + type(x).__name__
         names = OBJ_CLASSES.get(cls)
@@ -229,8 +231,6 @@ def env_for(names):
     import votelib.persist as P
     env = {'classes': [], 'callables': [], 'others': []}
     for n in sorted(names):
-        if n in ('dict', 'Fraction', 'Decimal', 'tuple', 'frozenset'):
-            continue
         if not P.is_scoped_identifier(n):
             continue
         try:
@@ -544,3 +544,23 @@ def kinds_p(p, out):
     elif t == 'obj':
         for _, v in p['p']:
             kinds_p(v, out)
+
+
+def iteration_order(p):
+    """the same value with the children of every bare set listed in Python's iteration order (what the writer sees)"""
+    if 'a' in p:
+        return p
+    t = p['t']
+    if t == 'set':
+        kids = [iteration_order(x) for x in p['v']]
+        by_val = {}
+        for k in kids:
+            by_val.setdefault(py_of_pval(k), k)
+        return {'t': 'set', 'v': [by_val[v] for v in set(py_of_pval(k) for k in kids)]}
+    if t in ('list', 'tuple', 'fset'):
+        return {'t': t, 'v': [iteration_order(x) for x in p['v']]}
+    if t == 'dict':
+        return {'t': t, 'k': [iteration_order(x) for x in p['k']], 'v': [iteration_order(x) for x in p['v']]}
+    if t == 'obj':
+        return {'t': t, 'cls': p['cls'], 'p': [[k, iteration_order(v)] for k, v in p['p']]}
+    return p
